@@ -518,26 +518,37 @@ def finalize(obs: Observer) -> list[dict]:
             o["fr"] = rk(e["_fun"])
             o["pg"] = bool(projgr(x, e["_jac"], lb, ub) <= gtol) if gtol is not None else False
             o["leT"] = bool(target is not None and e["_fun"] / s <= target)
-            # provenance of the correction pairs
+            # provenance of the correction pairs: (a, b) such that sk[r] == pts[b] - pts[a]
+            # bit-exactly (exact = True) or, failing that, up to rounding (exact = False)
             sk, yk = e["_sk"], e["_yk"]
             prov = []
             sy = True
+            cands = sorted(iter_pts, reverse=True)
             for r in range(sk.shape[0]):
-                found = [0, 0]
-                yok = False
-                for b in sorted(iter_pts, reverse=True):
-                    for a in sorted(iter_pts, reverse=True):
-                        if a == b:
-                            continue
-                        if np.array_equal(obs.arr[b] - obs.arr[a], sk[r]):
-                            ga, gb = obs.gval.get(a), obs.gval.get(b)
-                            found = [a, b]
-                            yok = bool(ga is not None and gb is not None
-                                       and np.array_equal(gb * s - ga * s, yk[r]))
+                # [a, b, yExact, sExact, yApprox]
+                found = [0, 0, False, False, False]
+                for exact in (True, False):
+                    for b in cands:
+                        for a in cands:
+                            if a == b:
+                                continue
+                            dab = obs.arr[b] - obs.arr[a]
+                            if (np.array_equal(dab, sk[r]) if exact else
+                                    np.allclose(dab, sk[r], rtol=1e-9, atol=1e-12 * (1 + float(np.max(np.abs(obs.arr[b])))))):
+                                ga, gb = obs.gval.get(a), obs.gval.get(b)
+                                yex = yap = False
+                                if ga is not None and gb is not None:
+                                    dy = gb * s - ga * s
+                                    yex = bool(np.array_equal(dy, yk[r]))
+                                    yap = bool(np.allclose(dy, yk[r], rtol=1e-7,
+                                                           atol=1e-10 * (1 + float(np.max(np.abs(gb * s))))))
+                                found = [a, b, yex, exact, yap]
+                                break
+                        if found[0]:
                             break
-                    if found != [0, 0]:
+                    if found[0]:
                         break
-                prov.append(found + [yok])
+                prov.append(found)
                 if not float(sk[r].dot(yk[r])) > 0:
                     sy = False
             o["prov"] = prov
